@@ -566,6 +566,12 @@ func (fr *Frame) havocClasses(st *State, classes map[string]bool, why string) {
 		}
 		st.heap[k] = fc.fresh("hv."+why+"."+k, s)
 	}
+	if fc.initMode && st.alloc.IsLit() {
+		// package initialisers are evaluated with literal references (only the identity of
+		// objects matters): an opaque call may allocate, so leave a window of references
+		st.alloc = iAdd(st.alloc, IntLit64(1<<20))
+		return
+	}
 	na := fc.fresh("alloc."+why, SInt)
 	fc.assume(True, Op(">=", SBool, na, st.alloc))
 	st.alloc = na
@@ -585,7 +591,7 @@ func (fr *Frame) loopWrites(li *loopInfo) map[string]bool {
 
 func (fr *Frame) alloc(st *State) *Term {
 	fc := fr.fc
-	r := Op("+", SInt, st.alloc, IntLit64(1))
+	r := iAdd(st.alloc, IntLit64(1))
 	st.alloc = r
 	_ = fc
 	return r
